@@ -10,24 +10,29 @@ shortest_int
       {0,1,2,3}*1e-11; 'near' {0, 1e6, 2e6+1e-3, 3e6+3e-3} (large scale, widths 1e-9 apart in relative terms); 'ulp'
       {1, 1+eps, 1+2eps, 1+3eps} (large offset, variation of one unit in the last place) - the statement is scale and offset free,
     * integer-dtype vectors of length <= 6 (thorough: <= 7): int64 {0,1,2,3}, int32 {-2,-1,0,1}, uint16 {0,1,2,3},
-      full-scale int16 {-30000,0,3000,30000} (differences do not fit the dtype),
+      full-scale int16 {-30000,0,3000,30000} (differences do not fit the dtype); real data in a complex container (imaginary
+      part exactly zero), signed: complex128 {-2,-1,0,1}, complex64 {-1,-1/2,0,2} - judged on the real part,
     * the EDGE percentages (16 values: 1e-9, below 1 %, around 1 %, fractional with exact products, close to 100 % up to
       99.9999999) x every vector of length <= 7 over {0,1,2,3} (thorough: <= 8) and every int64 vector of length <= 6,
-    * si-forms: 11 spellings of the data argument (ndarray, list/tuple of floats and of ints, float32, float16, int8, uint8,
-      write-protected, strided view) x 10 spellings of the percentage (Python int/float, np.int64/int32/uint8/float64/float32,
+    * si-forms: 13 spellings of the data argument (ndarray, list/tuple of floats and of ints, float32, float16, int8, uint8,
+      write-protected, strided view, complex128 / complex64 with zero imaginary part) x 10 spellings of the percentage (Python int/float, np.int64/int32/uint8/float64/float32,
       0-d arrays, keyword) x every vector of length <= 4 (thorough: <= 5) over {0,1,2,3},
     * si-lagscan: the lag clause on EVERY (percent, length) with percent a multiple of 1/2 in (0,100) and length 2..200
       (thorough: multiples of 1/4, length <= 400), on a permutation of 0..len-1 (float64 and int64: the returned pair shows the
       lag that was used) and on the same permutation of the triangular numbers (unique minimum),
     * seeded long vectors (3 ... 2^17, incl. 9999 / 10^4 / 10^4+1 at 99.99 %; Gaussian / uniform / dyadic 16-level quantised;
       float64, float32, float16, raw integer counts int8 ... int64 / uint8 / uint16, scaled by 1e-12 ... 1e6, on offsets of 1e6,
-      -1e9 and 1 with variations down to a few ulp) with the standard and the edge percentages.
+      -1e9 and 1 with variations down to a few ulp, real records in complex128 / complex64 containers) with the standard and
+      the edge percentages.
   Vectors are batched (one worker call per 3-symbol prefix / per form pair / per length).  Failing inputs are re-registered as
   single-vector cases so that the replay file holds exactly the smallest failing input.
 
 ADC
-    adc      : 5 signal families x 10 lengths x 17 dtype / value forms (float64, float32, float16, int8 ... int64 counts, uint8 /
-               uint16 counts, full-scale int16, scales 1e-12 ... 1e6, offsets) x n in 1..12 x otype x 8 input forms {ndarray,
+    adc      : 5 signal families x 10 lengths x 24 dtype / value forms (float64, float32, float16, int8 ... int64 counts, uint8 /
+               uint16 counts, full-scale int16, scales 1e-12 ... 1e6, offsets; REAL records held in a complex container -
+               complex128 / complex64 / complex128 with -0.0 imaginary part, bipolar, unipolar, on +1e6 / -1e9 offsets: the
+               statement's "real signals" are read as "imaginary part exactly zero", the oracle is evaluated on the real part;
+               a non-zero imaginary part stays outside) x n in 1..12 x otype x 8 input forms {ndarray,
                container, container+noise, +all-zero noise, +noise of another dtype, the output of a first 3-bit-volt / 8-bit-code /
                12-bit-volt conversion}, a fresh input per call (quick: the new forms as a deviation lattice around the base block).
     adc-callforms: 10 spellings of the call (positional, fs=None, n as np.int64/int32/uint8/0-d array, otype as np.str_ / left
@@ -73,8 +78,12 @@ ALPHABETS = {
     'i32s': (-2, -1, 0, 1),       # signed raw counts
     'u16': (0, 1, 2, 3),          # unsigned raw counts
     'i16fs': (-30000, 0, 3000, 30000),   # full-scale int16 capture: every value fits int16, some differences do not
+    # REAL data held in a complex container (imaginary part exactly zero), signed values: complex128 / complex64
+    'c16s': (-2.0, -1.0, 0.0, 1.0),
+    'c8s': (-1.0, -0.5, 0.0, 2.0),
 }
-ALPHA_DTYPE = {'i64': np.int64, 'i32s': np.int32, 'u16': np.uint16, 'i16fs': np.int16}
+ALPHA_DTYPE = {'i64': np.int64, 'i32s': np.int32, 'u16': np.uint16, 'i16fs': np.int16, 'c16s': np.complex128,
+               'c8s': np.complex64}
 # input classes whose failures get their own keys (one defect class: the arithmetic is carried out in the input's own integer
 # dtype and wraps around)
 SI_WRAP = {'i16fs': 'full-scale-int16-input', 'i2fs': 'full-scale-int16-input', 'i1': 'full-scale-int8-input'}
@@ -84,9 +93,23 @@ EPS16 = float(np.finfo(np.float16).eps)
 
 
 def work_dtype(a):
-    """the floating-point type the library's arithmetic on `a` is carried out in (integer records are converted to float64)"""
+    """the floating-point type the library's arithmetic on `a` is carried out in (integer records are converted to float64;
+    a complex container computes its real part in the floating type of its components)"""
     dt = np.asarray(a).dtype
+    if dt.kind == 'c':
+        return np.dtype(np.float32 if dt.itemsize == 8 else np.float64)
     return dt if dt.kind == 'f' else np.dtype(float)
+
+
+def real_part(a):
+    """the real record held by `a`.  A complex container is inside the statement ("real signals", "data sets") only when its
+    imaginary part is exactly zero: then the record IS its real part; otherwise None."""
+    a = np.asarray(a)
+    if a.dtype.kind != 'c':
+        return a
+    if np.any(a.imag != 0):
+        return None
+    return np.ascontiguousarray(a.real)
 
 
 def work_eps(wt):
@@ -128,8 +151,9 @@ def ref_small(s, lag):
     return r
 
 
-def _unpack(out):
-    """two scalars from whatever the library returned, else None"""
+def _unpack(out, cplx=False):
+    """two scalars from whatever the library returned, else None.  cplx: the data were handed over in a complex container
+    (zero imaginary part); the two values may then come back in that container, again with a zero imaginary part."""
     try:
         a = np.asarray(out)
         if a.shape[0] != 2:
@@ -140,7 +164,9 @@ def _unpack(out):
         lo = np.asarray(lo).ravel()[0]
         hi = np.asarray(hi).ravel()[0]
         if np.iscomplexobj(lo) or np.iscomplexobj(hi):
-            return None
+            if not cplx or np.imag(lo) != 0 or np.imag(hi) != 0:
+                return None
+            lo, hi = np.real(lo), np.real(hi)
         return float(lo), float(hi)
     except Exception:
         return None
@@ -157,13 +183,13 @@ def si_eval(values, p, dtype=float, wrap=None):
 # ---- spellings of the two arguments (the statement quantifies over data sets and percentages, not over their Python types)
 # data: the float64 ndarray is the base form; array-likes (list/tuple of floats, of Python ints), narrower dtypes (the
 # alphabet {0,1,2,3} is exact in all of them), a write-protected buffer, a strided view of a larger buffer
-DATA_FORMS = ('ndarray', 'list', 'tuple', 'int-list', 'int-tuple', 'f4', 'f2', 'i1', 'u1', 'readonly', 'strided')
+DATA_FORMS = ('ndarray', 'list', 'tuple', 'int-list', 'int-tuple', 'f4', 'f2', 'i1', 'u1', 'readonly', 'strided', 'c16', 'c8')
 # percent: Python int is the base form; Python float, numpy scalars, 0-d arrays, the keyword spelling.  Only values that every
 # form represents exactly are used (integers; 12.5 in the floating forms), so the lag is the same number in every form
 PCT_FORMS = ('py', 'float', 'np.int64', 'np.int32', 'np.uint8', 'np.float64', 'np.float32', '0d-int', '0d-float', 'kw')
 PCT_INT_FORMS = ('py', 'np.int64', 'np.int32', 'np.uint8', '0d-int', 'kw')
 FORM_PERCENTS = (10, 25, 50, 75, 90, 12.5)
-_DFORM_DTYPE = {'f4': np.float32, 'f2': np.float16, 'i1': np.int8, 'u1': np.uint8}
+_DFORM_DTYPE = {'f4': np.float32, 'f2': np.float16, 'i1': np.int8, 'u1': np.uint8, 'c16': np.complex128, 'c8': np.complex64}
 
 
 def make_data(values, dform):
@@ -219,7 +245,7 @@ def _si_eval(values, p, dtype, dform=None, pform=None):
     lag0 = lags[0]
     if len(set(s)) < n and lag0 >= 1 and n - lag0 >= 2:
         nt = (s, p)
-    pr = _unpack(out)
+    pr = _unpack(out, cplx=np.asarray(data).dtype.kind == 'c')
     otag = (s, p, pr)
     if pr is None:
         return ('SI:shape', f'shortest_int({list(values)}, {p}) returned {out!r}: not two scalars', otag, nt)
@@ -434,15 +460,50 @@ NP_DTYPE = {'f8': np.float64, 'f4': np.float32, 'f2': np.float16, 'i2': np.int16
 # one ulp there: the clauses hold up to the rounding of the offset, which is what the tolerance of adc_clauses expresses)
 XFORM = {'x1e-12': (1e-12, 0.0), 'x1e-9': (1e-9, 0.0), 'x1e-6': (1e-6, 0.0), 'x1e6': (1e6, 0.0),
          'o1e6': (1.0, 1e6), 'o1e9': (1e-3, -1e9), 'ulp': (1e-14, 1.0)}
+# complex CONTAINERS of a real record (imaginary part exactly zero; what electrical_signal(x, dtype=complex), x.astype(complex)
+# or a 'v' conversion of such a record hold): '<container>' or '<container>:<value form of the real part>'.  'c16' complex128,
+# 'c8' complex64 (real part rounded to float32), 'c16m' complex128 with the other spelling of zero (-0.0, e.g. after conj()).
+# The families are bipolar; 'uni' makes them unipolar (5 +- 0.5 x: a photocurrent / unipolar NRZ, the +-10 sigma outliers reach
+# 0 and 10), 'o1e6' / 'o1e9' put them on a large positive / negative offset (o1e9: an all-negative record)
+CPLX = {'c16': np.complex128, 'c8': np.complex64, 'c16m': np.complex128}
+XFORM_CPLX = {'uni': (0.5, 5.0)}
+
+
+def split_form(dt):
+    """-> (complex container | None, dtype / value form of the real record)"""
+    head, _, inner = dt.partition(':')
+    if head in CPLX:
+        return head, inner or ('f4' if head == 'c8' else 'f8')
+    return None, dt
+
+
+def form_unit(dt):
+    """size of one unit of the family in the dtype / value form dt (scale of the noise components)"""
+    inner = split_form(dt)[1]
+    if inner in COUNTS:
+        return COUNTS[inner][0]
+    return XFORM.get(inner, XFORM_CPLX.get(inner, (1.0, 0.0)))[0]
 
 
 def as_dtype(base, dt, unsigned_abs=False, component=False):
     """float64 record -> the dtype / value form `dt` (see COUNTS, XFORM); never constant.
     component=True: a noise component (it takes the scale of a value form, not its offset)"""
+    cont, inner = split_form(dt)
+    if cont is not None:
+        re = as_dtype(base, inner, unsigned_abs, component)
+        if cont == 'c8' and re.dtype != np.float32:      # the real part has to be exact in the container's component type
+            re = re.astype(np.float32)
+            if np.ptp(re) == 0:
+                re[0] = np.nextafter(re[0], np.float32(np.inf))
+        x = re.astype(CPLX[cont])
+        if cont == 'c16m':
+            x = np.conj(x)
+        assert x.dtype == CPLX[cont] and not np.any(x.imag != 0) and np.array_equal(x.real, re)
+        return x
     if dt == 'f8':
         return base
-    if dt in XFORM:
-        scale, off = XFORM[dt]
+    if dt in XFORM or dt in XFORM_CPLX:
+        scale, off = XFORM[dt] if dt in XFORM else XFORM_CPLX[dt]
         x = base * scale + (0.0 if component else off)
         if np.ptp(x) == 0:
             x[0] = np.nextafter(x[0], np.inf)
@@ -474,7 +535,7 @@ def ref_long(x, lag):
     """-> (sorted, min width, indices of minimal windows).  float32 / float16 records are sorted and subtracted in their own
     arithmetic: rounding is monotone, so fl(w_ret) > fl(w_min) implies w_ret > w_min in the reals whichever precision the
     library used, and windows whose widths round to the same number are all accepted."""
-    s = np.sort(np.asarray(x, dtype=work_dtype(x)))
+    s = np.sort(np.asarray(real_part(x), dtype=work_dtype(x)))
     n = len(s)
     w = s[lag:] - s[:n - lag]
     m = w.min()
@@ -493,8 +554,7 @@ def si_long(case):
     except Exception as e:
         key = 'SI:lag0:exception' if max(lags) == 0 else f'SI:exception:{type(e).__name__}'
         return res(viol=[(key, f'{name} raised {type(e).__name__}: {e}')], obs=('EXC', type(e).__name__), nontrivial=False)
-    pr = _unpack(out)
-    tied_any = len(np.unique(x)) < n
+    pr = _unpack(out, cplx=x.dtype.kind == 'c')
     nt = (kind, n, p) if lags[0] >= 1 else False
     if pr is None:
         return res(viol=[('SI:shape', f'{name} returned {out!r}')], obs=repr(out), nontrivial=nt)
@@ -547,6 +607,10 @@ ADC_FORMS_NEW = ('container+zero-noise', 'container+other-noise', 'chain:3v', 'c
 ADC_FORMS = ADC_FORMS_BASE + ADC_FORMS_NEW
 ADC_DTYPES_BASE = ('f8', 'i4', 'i8', 'i2', 'f4', 'u2', 'i2fs')     # see COUNTS
 ADC_DTYPES_NEW = ('f2', 'i1', 'u1') + tuple(XFORM)                 # 8-bit captures, float16, scales and offsets (see XFORM)
+# real records in a complex container (see CPLX): bipolar in complex128 / complex64, and the value forms of the complex axis
+ADC_DTYPES_CPLX = ('c16', 'c8')
+ADC_DTYPES_CPLX_VAL = ('c16m', 'c16:uni', 'c8:uni', 'c16:o1e6', 'c16:o1e9')
+ADC_DTYPES_NEW = ADC_DTYPES_NEW + ADC_DTYPES_CPLX + ADC_DTYPES_CPLX_VAL
 ADC_DTYPES = ADC_DTYPES_BASE + ADC_DTYPES_NEW
 # spellings of the call: keyword (base) / positional / explicit fs=None; n as numpy integer scalars and a 0-d array; otype as
 # numpy string, or left out (the statement's `ADC(x, n)` is then bound by the volt clauses); a configured global grid
@@ -641,13 +705,16 @@ def adc_clauses(x, out, n, otype, vmin, vmax, model, eps=EPS):
 def adc_input(kind, length, dt, form, seed):
     """-> (argument for ADC, float64 copy of the real signal the converter has to quantise, working float type).
     The integer forms are exact in float64; for float32 / float16 the reference is the sum signal+noise in that type (the real
-    sum is within one rounding of it, which the tolerance of adc_clauses in that type covers)."""
+    sum is within one rounding of it, which the tolerance of adc_clauses in that type covers).  For a complex container the
+    signal to quantise is the real part (the imaginary part is exactly zero; the sum of two such records is exact in both
+    parts); a chained record with a non-zero imaginary part is outside the statement: the signal is returned as None."""
     from opticomlib.typing import electrical_signal
     if form.startswith('chain:'):
         first, _, _ = adc_input(kind, length, dt, 'container+noise', seed)
         arg = adc_call(first, int(form[6:-1]), form[-1])
         x = adc_output(arg)
-        return arg, np.array(x, dtype=float), work_dtype(x)
+        xr = real_part(x)
+        return arg, (None if xr is None else np.array(xr, dtype=float)), work_dtype(x)
     sig = as_dtype(gen_data(kind, length, seed), dt)
     if form == 'ndarray':
         arg, x = sig, sig
@@ -661,14 +728,14 @@ def adc_input(kind, length, dt, form, seed):
         elif form == 'container+zero-noise':
             noise = np.zeros_like(sig)
         else:
-            unit = COUNTS[dt][0] if dt in COUNTS else XFORM.get(dt, (1.0, 0.0))[0]
-            noise = (nbase * unit).astype(np.float32 if sig.dtype == np.float64 else np.float64)
-        if np.ptp(np.asarray(sig) + noise) == 0:      # 8-bit pair [a, a+1] + noise [1, 0]: keep the record non-constant
+            noise = (nbase * form_unit(dt)).astype(np.float32 if sig.dtype == np.float64 else np.float64)
+        if np.ptp(real_part(np.asarray(sig) + noise)) == 0:      # 8-bit pair [a, a+1] + noise [1, 0]: keep the record non-constant
             noise = noise.copy()
             noise[0] = noise[0] - 1 if noise[0] > 0 else noise[0] + 1
         arg = electrical_signal(sig, noise)
         x = arg.signal + arg.noise
-    return arg, np.array(x, dtype=float), work_dtype(x)
+    assert split_form(dt)[0] is None or x.dtype.kind == 'c', (dt, form, x.dtype)     # the container keeps the complex type
+    return arg, np.array(real_part(x), dtype=float), work_dtype(x)
 
 
 def adc_call(arg, n, otype, cform='kw'):
@@ -687,11 +754,21 @@ def adc_call(arg, n, otype, cform='kw'):
     return ADC(arg, n=n, otype=otype)
 
 
-def adc_output(y):
+def adc_output(y, cplx=False):
+    """the returned record.  cplx: the input was a real record in a complex container; the output may then come back in
+    such a container too (the 'v' levels V_min + c*step inherit the type of V_min) - with an imaginary part that is exactly
+    zero it is judged by its real part; a non-zero imaginary part is not a value in [V_min, V_max] and stays complex
+    (adc_clauses: 'not a finite real signal')."""
     out = np.asarray(getattr(y, 'signal', y))
     if getattr(y, 'noise', None) is not None:
         out = out + np.asarray(y.noise)
+    if cplx and out.dtype.kind == 'c' and real_part(out) is not None:
+        out = real_part(out)
     return out
+
+
+def is_cplx(arg):
+    return np.asarray(getattr(arg, 'signal', arg)).dtype.kind == 'c'
 
 
 def adc_judge(x, out, n, otype, cands, dt, eps=EPS):
@@ -745,22 +822,26 @@ def adc_case(case):
     gv_reset(**GV_FORMS.get(cform, {}))
     np.random.seed(0)
     arg, x, wt = adc_input(kind, length, dt, form, seed)
+    if x is None:
+        return res(obs='chained-record-not-real', nontrivial=False, stats={'adc_chained_inputs_not_real': 1})
     cands = adc_candidates(x, wt)
     if _degenerate(cands):
         return res(obs='constant-input', nontrivial=False, stats={'adc_constant_inputs': 1})
     name = f'ADC(<{kind} {dt} len={length} {form} seed={seed}>, n={n}, otype={otype!r})' + \
            ('' if cform == 'kw' else f' spelled {cform!r}')
+    cplx = is_cplx(arg)
     y = adc_call(arg, n, otype, cform)
-    out = adc_output(y)
+    out = adc_output(y, cplx)
     key, msg, n_out = adc_judge(x, out, n, otype, cands, dt, work_eps(wt))
     if key and cform != 'kw':
         # a failure of the plain keyword call keeps its key; one that only this spelling shows gets the key of the spelling
         gv_reset()
         arg0, _, _ = adc_input(kind, length, dt, form, seed)
-        if adc_judge(x, adc_output(adc_call(arg0, n, otype)), n, otype, cands, dt, work_eps(wt))[0] is None:
+        if adc_judge(x, adc_output(adc_call(arg0, n, otype), cplx), n, otype, cands, dt, work_eps(wt))[0] is None:
             key, msg = f'ADC:call-form-dependent:{cform}', f'[{key}] ' + msg
     nlev = len(np.unique(out)) if out.ndim == 1 else 0
-    stats = {'adc_cases': 1, 'adc_cases_with_outside_samples': int(n_out > 0), 'adc_candidate_ranges': len(cands)}
+    stats = {'adc_cases': 1, 'adc_cases_with_outside_samples': int(n_out > 0), 'adc_candidate_ranges': len(cands),
+             'adc_cases_complex_container': int(cplx), 'adc_cases_complex_container_negative_samples': int(cplx and x.min() < 0)}
     nt = (kind, length, dt, n, otype, form, cform, n_out > 0) if nlev >= 2 else False
     viol = [(key, f'{name}: {msg}')] if key else []
     return res(viol=viol, obs=_digest(out), nontrivial=nt, stats=stats)
@@ -776,6 +857,9 @@ def adc_sweep(case):
     gv_reset()
     np.random.seed(0)
     arg, x, wt = adc_input(kind, length, dt, form, seed)
+    if x is None:
+        return res(obs='chained-record-not-real', nontrivial=False, stats={'adc_chained_inputs_not_real': 1}, payload={'calls': 0})
+    cplx = is_cplx(arg)
     snap = freeze(arg)
     if not protect:
         for a in ([arg] if isinstance(arg, np.ndarray) else [getattr(arg, k, None) for k in ('signal', 'noise')]):
@@ -799,7 +883,7 @@ def adc_sweep(case):
                 viol.append(('ADC:writes-into-argument', f'{name} tried to write into its write-protected argument: {e}'))
                 break
             raise
-        out = adc_output(y)
+        out = adc_output(y, cplx)
         digests.append(_digest(out))
         key, msg, n_out = adc_judge(x, out, n, otype, cands, dt, eps)
         n_outside = max(n_outside, n_out)
@@ -868,11 +952,14 @@ def run(ctx):
     ctx.assume('float subtraction is monotone, so "returned width > minimal width" in floats implies the same for the exact reals')
     ctx.assume('a constant signal (V_max == V_min, zero quantisation step) is outside the quantifier and is not enumerated')
     ctx.assume('numpy 1.26 scalar promotion (value based): numpy integer scalars for n / percent do not wrap around')
+    ctx.assume('a real record held in a complex container (imaginary part exactly zero) is a real signal / data set: it is judged on '
+               'its real part, and an output that comes back in such a container is judged on its real part if its imaginary part '
+               'is exactly zero; records with a non-zero imaginary part are outside the statement and are not enumerated')
 
     plan = [('int4', 8 if q else 9, 'std'), ('mix', 6 if q else 8, 'std'), ('tiny', 6 if q else 8, 'std'),
             ('near', 6 if q else 8, 'std'), ('ulp', 6 if q else 8, 'std'),
             ('i64', 6 if q else 7, 'std'), ('i32s', 6 if q else 7, 'std'), ('u16', 6 if q else 7, 'std'),
-            ('i16fs', 6 if q else 7, 'std'),
+            ('i16fs', 6 if q else 7, 'std'), ('c16s', 6 if q else 7, 'std'), ('c8s', 6 if q else 7, 'std'),
             ('int4', 7 if q else 8, 'edge'), ('i64', 6 if q else 7, 'edge')]
     for alpha, maxlen, pset in plan:
         part = f'si-exhaustive-{alpha}' + ('' if pset == 'std' else '-' + pset)
@@ -902,7 +989,9 @@ def run(ctx):
     ikinds = ('gauss@i4', 'quant16@i8', 'uniform@i2', 'gauss@u2', 'gauss@f4', 'gauss_out@i2fs')     # raw-count / float32 records
     # 8-bit / float16 records, scales 1e-12 .. 1e6, large offsets with a small (down to ulp-sized) variation
     xkinds = ('gauss_out@i1', 'gauss@u1', 'gauss@f2', 'gauss@x1e-12', 'uniform@x1e-9', 'quant16@x1e-6', 'gauss@x1e6',
-              'gauss@o1e6', 'uniform@o1e9', 'gauss@ulp', 'quant16@ulp')
+              'gauss@o1e6', 'uniform@o1e9', 'gauss@ulp', 'quant16@ulp',
+              # real records in a complex container (zero imaginary part): bipolar, unipolar, on a negative offset
+              'gauss@c16', 'uniform@c8', 'quant16@c16m', 'gauss_out@c8:uni', 'uniform@c16:o1e9')
     lens = (10 ** 4, 2 ** 17)
     long_cases = [(k, n, p, ctx.seed + j) for n in lens for k in kinds for p in PERCENTS
                   for j in range(1 if q else 4)]
@@ -936,7 +1025,13 @@ def run(ctx):
                     yield dt, f, single_lengths(dt), ADC_NS
                 elif not q:                                   # thorough, two deviations at once: every second bit depth
                     yield dt, f, ADC_LENGTHS, NS_THIN
+                elif dt in ADC_DTYPES_CPLX_VAL:               # value forms of the complex-container axis: thinner lattice
+                    if f in ('ndarray', 'container+noise'):
+                        yield dt, f, (3, 100, 10001, 20000), (1, 8, 12)
                 elif new_dt != new_f and (new_dt or dt in ('f8', 'i4', 'f4', 'u2')):
+                    yield dt, f, ADC_LENGTHS_THIN, NS_THIN
+                elif dt == 'c16' and f in ('container+other-noise', 'chain:12v'):
+                    # a real noise component on a complex signal; the complex128 record a first 'v' conversion returns
                     yield dt, f, ADC_LENGTHS_THIN, NS_THIN
 
     def nseeds(dt, f):      # thorough: three seeds for the base block, one for the cells the hardening pass added
@@ -948,7 +1043,7 @@ def run(ctx):
 
     # ---- ADC, spellings of the call (each alone and combined with one other deviation: integer counts, a noise component)
     cf_cases = [(k, L, dt, n, o, f, ctx.seed, cf)
-                for cf in ADC_CALLFORMS[1:] for dt in (('f8', 'i4') if q else ('f8', 'i4', 'u2', 'f4'))
+                for cf in ADC_CALLFORMS[1:] for dt in (('f8', 'i4') if q else ('f8', 'i4', 'u2', 'f4', 'c16'))
                 for L in ((3, 100, 10001, 20000) if q else (3, 100, 10001, 20000, 2 ** 17)) for k in ADC_KINDS
                 for f in (('ndarray', 'container+noise') if q else ('ndarray', 'container+noise', 'container+other-noise',
                                                                     'chain:8n')) for n in (1, 8, 12) for o in ('n', 'v')
@@ -957,10 +1052,14 @@ def run(ctx):
 
     def sweep_member(dt, f, L, prot):
         new_dt, new_f = dt in ADC_DTYPES_NEW, f in ADC_FORMS_NEW
+        if dt in ADC_DTYPES_CPLX_VAL:      # value forms of the complex-container axis: thorough only, writable, base input forms
+            return not q and not prot and not new_f
         if not q:
             return not (new_dt and new_f and prot)
         if new_dt and new_f:
             return False
+        if dt == 'c8':                     # complex64: the bare array only (complex128: as every new dtype form)
+            return not prot and f == 'ndarray' and L in ADC_LENGTHS_THIN
         if new_dt:                 # writable form, input forms ndarray / container+noise; 2^17 for 'ulp' and int8
             return (not prot and f != 'container' and
                     L in ADC_LENGTHS_THIN + ((2 ** 17,) if dt in ('ulp', 'i1') and f == 'ndarray' else ()))
